@@ -44,6 +44,10 @@ Definition no_F22 (sv : spec_rules) (a : auth_input) : Prop :=
 Definition no_F26 (a : auth_input) : Prop :=
   forall m, ai_new_member a = Some m -> m_membership m = MsJoin -> ai_join_rule a = JrPublic ->
     ai_target_member a <> Some MsKnock /\ ai_target_member a <> Some MsOther.
+(* F53: a v1/v2 redaction by a sender whose level reaches the redact level, whose redacts has no
+   domain part: the library extracts the domain before it looks at the level and refuses *)
+Definition no_F53 (a : auth_input) : Prop :=
+  ai_kind a = KRedaction -> ai_redacts_domain a <> None.
 (* a power-levels auth event that does not parse (the context then keeps a zero content) *)
 Definition no_broken_power_levels (a : auth_input) : Prop :=
   forall c, ai_create a = Some c -> ai_pl_present a = false -> ai_pl a = pl_absent (c_sender c).
@@ -144,21 +148,21 @@ Qed.
 
 (* ---------- redaction ---------- *)
 Lemma redaction_rules a sv :
-  rules_agree (ai_flags a) sv ->
+  rules_agree (ai_flags a) sv -> ai_redacts_domain a <> None ->
   spec_redaction sv a = accepted (decide_redaction a).
 Proof.
-  intros Hra. unfold spec_redaction, decide_redaction. pose proof (generic_prefix a sv Hra) as H.
+  intros Hra Hrd. unfold spec_redaction, decide_redaction. pose proof (generic_prefix a sv Hra) as H.
   destruct (common_checks a) as [v|].
   - destruct H as [Hv ->]. destruct v; try reflexivity. congruence.
   - destruct H as (c & Hc & -> & d & Hd). rewrite Hc, Hd.
     rewrite (level_eq a sv c (ai_sender a) Hra).
+    destruct (ai_redacts_domain a) as [rd|]; [|congruence].
     destruct (c_room_version c) as [v|].
     + destruct (bytes_eqb v s_v1 || bytes_eqb v s_v2) eqn:E; unfold s_v1, s_v2 in E; rewrite E; simpl;
         [|reflexivity].
-      destruct (ai_redacts_domain a) as [rd|]; [|reflexivity].
       destruct (bytes_eqb d rd); [rewrite Bool.orb_true_r; reflexivity|].
       rewrite Bool.orb_false_r. destruct (_ <=? _); reflexivity.
-    + simpl. destruct (ai_redacts_domain a) as [rd|]; [|reflexivity].
+    + simpl.
       destruct (bytes_eqb d rd); [rewrite Bool.orb_true_r; reflexivity|].
       rewrite Bool.orb_false_r. destruct (_ <=? _); reflexivity.
 Qed.
@@ -178,7 +182,7 @@ Lemma member_rules a sv :
 Proof.
   intros Hra (_ & _ & _ & Hself) HF18 Htpi HF26.
   pose proof Hra as (Hkn & Hrs & _ & _ & _ & Hps & _).
-  unfold spec_member, decide_member.
+  unfold spec_member, decide_member. rewrite Hps.
   destruct (ai_state_key a) as [target|] eqn:Esk; [|reflexivity].
   destruct (ai_new_member a) as [m|] eqn:Enm; [|reflexivity].
   destruct (ai_target_member a) as [old|] eqn:Etm; [|reflexivity].
@@ -203,7 +207,7 @@ Proof.
             end) eqn:Eload; simpl.
   2:{ destruct (Hload eq_refl) as (t & Et & Em & Hnl). rewrite Em, Et.
       destruct (ai_create a) as [c|]; [|reflexivity].
-      destruct (match m_mapping m with Some md => md | None => ai_sender_domain a end); [|reflexivity].
+      destruct (match (if sr_pseudo sv then m_mapping m else None) with Some md => md | None => ai_sender_domain a end); [|reflexivity].
       destruct (negb (bytes_eqb (ai_room a) (c_room c))); [reflexivity|].
       destruct (negb (_ || _)); [reflexivity|].
       unfold spec_third_party_invite.
@@ -215,8 +219,8 @@ Proof.
       - apply bytes_eqb_eq in E1. rewrite E1. symmetry. apply bytes_eqb_refl.
       - symmetry. apply bytes_eqb_neq. apply bytes_eqb_neq in E1. congruence. }
   destruct (bytes_eqb (ai_room a) (c_room c)); simpl.
-  2:{ destruct (match m_mapping m with Some md => md | None => ai_sender_domain a end); reflexivity. }
-  destruct (match m_mapping m with Some md => md | None => ai_sender_domain a end) as [d|]; [|reflexivity].
+  2:{ destruct (match (if sr_pseudo sv then m_mapping m else None) with Some md => md | None => ai_sender_domain a end); reflexivity. }
+  destruct (match (if sr_pseudo sv then m_mapping m else None) with Some md => md | None => ai_sender_domain a end) as [d|]; [|reflexivity].
   unfold domain_allowed.
   destruct (bytes_eqb d (c_sender_domain c) || c_federate c); simpl; [|reflexivity].
   unfold member_self, member_other, restricted_join, spec_join, spec_third_party_invite.
@@ -294,7 +298,7 @@ Lemma event_levels_eq L old new :
   check_event_levels L old new =
   forallb (fun g : pl_content -> Z => changed_ok L (g old) (g new))
           [pl_users_default; pl_events_default; pl_state_default; pl_ban; pl_redact; pl_kick; pl_invite]
-  && forallb (fun ty => changed_ok L (pl_event_level old ty false) (pl_event_level new ty false))
+  && forallb (fun ty => changed_ok L (pl_event_entry old ty) (pl_event_entry new ty))
              (map fst (pl_events old) ++ map fst (pl_events new)).
 Proof.
   unfold check_event_levels, event_pairs. rewrite forallb_app, forallb_map_c. f_equal.
@@ -366,10 +370,10 @@ Qed.
 (* ---------- all families ---------- *)
 Theorem refines_spec a sv :
   rules_agree (ai_flags a) sv -> auth_wf sv a ->
-  no_F18 a -> no_tpi_on_non_invite a -> no_F22 sv a -> no_F26 a -> no_broken_power_levels a ->
+  no_F18 a -> no_tpi_on_non_invite a -> no_F22 sv a -> no_F26 a -> no_F53 a -> no_broken_power_levels a ->
   decide_spec sv a = accepted (decide_model a).
 Proof.
-  intros Hra Hwf H18 Htpi H22 H26 Hnb. pose proof Hwf as (Hp & Hrk & _ & _).
+  intros Hra Hwf H18 Htpi H22 H26 H53 Hnb. pose proof Hwf as (Hp & Hrk & _ & _).
   unfold decide_spec, decide_model. rewrite Hp. simpl.
   destruct (ai_one_room a); simpl; [|reflexivity].
   destruct (ai_room_kind a) eqn:Erk; [congruence| |];
@@ -378,7 +382,7 @@ Proof.
      | apply alias_rules; assumption
      | apply member_rules; assumption
      | apply power_levels_rules; assumption
-     | apply redaction_rules; assumption
+     | apply redaction_rules; [assumption|apply H53; assumption]
      | apply generic_rules; assumption ]).
 Qed.
 
